@@ -1221,3 +1221,38 @@ Proof.
   { destruct (0 <? limit)%Z eqn:E1; auto. apply Z.ltb_lt in E1. lia. }
   rewrite E. reflexivity.
 Qed.
+
+(* ------------------------------------------------------------------ user-supplied FindPredecessors *)
+
+(* filters stacked on a caller's own FindPredecessors follow exactly those of ITS predecessors
+   whose manifest satisfies the filters (the descriptors it returns may lack fields; present
+   fields must be the manifest's; no completeness needed: nothing is taken on trust) *)
+Lemma find_preds_custom_exact s custom fs x :
+  Forall (desc_consistent s) (custom x) ->
+  map d_id (find_preds_custom s custom fs x) =
+  List.filter (fun id => forallb (fun f => keep_spec s f id) fs) (map d_id (custom x)).
+Proof.
+  intro H. unfold find_preds_custom.
+  apply (find_preds_fold s fs (false, custom x)). split; simpl; [exact H | discriminate].
+Qed.
+
+Lemma find_preds_custom_nil s custom x : find_preds_custom s custom [] x = custom x.
+Proof. reflexivity. Qed.
+
+(* the walk itself for ANY FindPredecessors function (user-supplied or built by the filters) *)
+Lemma find_roots_fp_unlimited (fp : nat -> list desc) rank limit node fuel roots :
+  (forall x p, In p (fp x) -> rank x < rank (d_id p)) -> (limit <= 0)%Z ->
+  find_roots_fp fuel fp limit node = Some roots ->
+  (forall r, In r roots -> reach fp (d_id node) (d_id r) /\ fp (d_id r) = []) /\
+  (forall a, reach fp (d_id node) a -> fp a = [] -> In a (map d_id roots)) /\
+  (forall a, reach fp (d_id node) a -> exists r, In r roots /\ reach fp a (d_id r)).
+Proof. intros Hr Hl H. exact (roots_unlimited fp limit node rank Hr fuel roots Hl H). Qed.
+
+Lemma find_roots_fp_depth (fp : nat -> list desc) rank limit node fuel roots :
+  (forall x p, In p (fp x) -> rank x < rank (d_id p)) -> (0 < limit)%Z ->
+  find_roots_fp fuel fp limit node = Some roots ->
+  (forall r, In r roots ->
+     (exists k, Z.of_nat k <= limit /\ path fp k (d_id node) (d_id r))%Z /\
+     (fp (d_id r) = [] \/ path fp (Z.to_nat limit) (d_id node) (d_id r))) /\
+  (exists r, In r roots /\ reach fp (d_id node) (d_id r)).
+Proof. intros Hr Hl H. exact (roots_depth fp limit node rank Hr fuel roots Hl H). Qed.
